@@ -19,7 +19,7 @@ MANIFEST = {
 
 RULE = ("regression inputs in corpus/C24 first + fixed scripts + a seed-dependent sample of the repo's .xgo/.gop/.gox/.data files (all in thorough) + generated scripts: 0-10 chunks drawn "
         "from declarations, function/method/overload declarations, statements incl. function literals with/without results, comments (line, block, "
-        "#, between func and '('), unbalanced braces, token soup; 30% of the chunks additionally get 1-2 comments inserted at random token boundaries (taken from the real scanner); separators newline/;/CRLF/none. Non-trivial = distinct script in which the "
+        "#, between func and '('), unbalanced braces, token soup; 30% of the chunks additionally get 1-2 comments inserted at random token boundaries (taken from the real scanner); 22% are well-formed 'statements then functions' scripts that need the hoisting; 60% are re-spelled between the tokens (blank/tab/nothing/newline/CRLF/glued comment/BOM, token sequence verified by re-scanning); separators newline/;/CRLF/none. Non-trivial = distinct script in which the "
         "rearrangement moves at least one chunk")
 
 
